@@ -102,6 +102,11 @@ fn tmpl_one(req: &Value) -> Value {
                 "globals" => g.export_globals().map_err(|e| e.message),
                 "scripts" => g.export_all_scripts().map_err(|e| e.message),
                 "stringify" => g.stringify_tmpl(main).ok_or("no such template".to_string()),
+                "text_locations" => {
+                    let src = req["files"].as_array().and_then(|fs| fs.iter().find(|f| f[0].as_str() == Some(main))).and_then(|f| f[1].as_str()).unwrap_or("");
+                    out[w] = json!(tc::verif::text_locations(src));
+                    continue;
+                }
                 _ => Err(format!("unknown want {}", w)),
             };
             out[w] = match v {
